@@ -39,7 +39,7 @@ func devMain(args []string) {
 		fmt.Println("LOAD ERROR:", err)
 		os.Exit(2)
 	}
-	pkg := P.pkgs[P.modPath+"/"+pkgPath]
+	pkg := P.pkgs[modJoin(P.modPath, pkgPath)]
 	spec := HarnessSpec{Pkg: pkgPath, Func: fn, MaxPaths: *maxp, Opts: ExecOpts{Schedule: *sched, Preemptions: *pre, Races: *races, IntMode: *intm, MapOrders: *orders, NoBatch: *nobatch}, TimeoutMs: *tmo}
 	st := Explore(P, pkg, spec, *workers, *solver, 30000)
 	fmt.Printf("paths=%d completed=%d infeasible=%d steps=%d wall=%v\n", st.Paths, st.Completed, st.Infeasible, st.Steps, st.Wall)
